@@ -24,7 +24,7 @@ STYLIZE_NEG = 0  # Text.stylize(start < -len) stores a negative span start; rend
 GETITEM = 0  # Text.__getitem__(int) drops the base style, and all spans for a negative index
 DIVIDE_ORDER = 0  # Text.divide re-orders spans through its value-keyed `order` dict (a split remainder equal to a later span)
 ALIGN_NEG = 0  # Text.align pads by a negative excess (text wider than the width): pad_left shifts the spans off their characters
-RSTRIP_END_CHARS = 1  # Text.rstrip_end compares the CHARACTER count with the cell width (pending_fixes/C08-rstrip-end-counts-cells.diff
+RSTRIP_END_CHARS = 0  # Text.rstrip_end compares the CHARACTER count with the cell width (pending_fixes/C08-rstrip-end-counts-cells.diff
 #                       makes it cell_len); separate request argument of text_rstrip_end, Lean: first argument of Text.rstripEndW
 RSTRIP_END_CHARS = int(__import__("os").environ.get("VERIF_C05_RSTRIP_END_CHARS", RSTRIP_END_CHARS))  # development aid, as VERIF_C05_FLAGS
 FLAGS = "".join(str(x) for x in (CTOR_LEN, CROP_ENDS, STYLIZE_NEG, GETITEM, DIVIDE_ORDER, ALIGN_NEG))
